@@ -179,23 +179,73 @@ Theorem prepass_line_is_prefix : forall ls i l,
 Proof. exact prepass_line_is_prefix_lemma. Qed.
 Print Assumptions prepass_line_is_prefix.
 
-(* Every SyntaxError of the compiler model carries an index inside the source (`located` excludes no site). *)
+(* Every SyntaxError of the compiler model but "stmt:python-syntax" carries an index inside the source, whatever the
+   oracles for Python's parser answer. *)
+Theorem diag_index_in_range_line_sites : forall pp is_call ls site i,
+  parse_real pp is_call ls = PDiag (DSyntax site i) -> site <> stmt_site -> i < length ls.
+Proof. exact diag_index_in_range_line_sites_lemma. Qed.
+Print Assumptions diag_index_in_range_line_sites.
+
+(* ... and every SyntaxError (`located` excludes no site) when Python blames a line of the statement it was given
+   (errline_inside: offset <= number of line feeds) and the lines are lines of source.split("\n").  core.py reports
+   `i + (e.lineno - 1)` for a `~` statement, unclamped; the model does the same (oracle py_stmt_errline). *)
 Theorem diag_index_in_range : forall pp is_call ls site i,
+  errline_inside pp -> Forall no_nl ls ->
   parse_real pp is_call ls = PDiag (DSyntax site i) -> located site = true -> i < length ls.
 Proof. exact diag_index_in_range_lemma. Qed.
 Print Assumptions diag_index_in_range.
 
-(* Every SyntaxError is located on the malformed line (culprit), or is of one of the three no-line / sub-list kinds
-   (F14b): raised while a @for body was re-parsed; a content error inside an @if / @for block; post-parse validation. *)
+(* source.split("\n") yields such lines *)
+Theorem split_lines_no_nl : forall source, Forall no_nl (split_char source LF).
+Proof. exact split_lines_no_nl_lemma. Qed.
+Print Assumptions split_lines_no_nl.
+
+(* Without the premise on Python's parser the statement is false, of the model and of the real compiler (finding
+   F14c): a bare carriage return inside a `~` statement is a line break for CPython, not for the compiler, and the
+   reported line lies outside the statement -- here past the end of the source ("on line 11" of a 4-line story). *)
+Theorem stmt_index_past_end_refuted :
+  exists pp is_call ls i,
+    Forall no_nl ls /\ parse_real pp is_call ls = PDiag (DSyntax stmt_site i) /\
+    length ls <= i /\ ~ inside_statement (prepass ls) i.
+Proof. exact stmt_index_past_end_refuted_lemma. Qed.
+Print Assumptions stmt_index_past_end_refuted.
+
+(* What the candidate patch proposed_fixes/F14c-statement-error-line-outside-statement.diff does: a clamped offset
+   stays inside the statement for every answer of Python's parser. *)
+Theorem clamped_stmt_index_inside : forall lines k l off,
+  nth_error lines k = Some l -> startswith l "~ " = true ->
+  inside_statement lines (k + Nat.min off (stmt_consumed lines k l - 1)).
+Proof. exact clamped_stmt_index_inside_lemma. Qed.
+Print Assumptions clamped_stmt_index_inside.
+
+(* Every SyntaxError is the line Python blames inside a rejected `~` statement (kind (s)), or is located on the malformed
+   line (culprit), or is of one of the three no-line / sub-list kinds (F14b): raised while a @for body was re-parsed; a
+   content error inside an @if / @for block; post-parse validation. *)
 Theorem diag_classified : forall pp is_call ls site i,
   parse_real pp is_call ls = PDiag (DSyntax site i) ->
-  i < length ls /\
-  (culprit_at (prepass ls) site i \/
-   (bsite site = true /\ raised_in_loop_body (prepass ls) site i) \/
-   (csite site = true /\ i = 0 /\ raised_in_block (prepass ls) site) \/
-   (callsite site = true /\ i = 0)).
+  (i < length ls /\
+   (culprit_at (prepass ls) site i \/
+    (bsite site = true /\ raised_in_loop_body (prepass ls) site i) \/
+    (csite site = true /\ i = 0 /\ raised_in_block (prepass ls) site) \/
+    (callsite site = true /\ i = 0))) \/
+  (site = stmt_site /\ stmt_blamed pp (prepass ls) i).
 Proof. exact diag_classified_lemma. Qed.
 Print Assumptions diag_classified.
+
+(* "stmt:python-syntax": some `~` statement starts on a line k, Python's parser rejects the assembled statement, and
+   i = k + the offset of the line Python blames (for every oracle) ... *)
+Theorem stmt_site_blamed : forall pp is_call ls i,
+  parse_real pp is_call ls = PDiag (DSyntax stmt_site i) -> stmt_blamed pp (prepass ls) i.
+Proof. exact stmt_site_blamed_lemma. Qed.
+Print Assumptions stmt_site_blamed.
+
+(* ... and line i lies inside that statement: it starts at a `~` line k <= i, k + consumed > i, and the statement
+   lies inside the source (k + consumed <= len(lines)) -- under the two premises of diag_index_in_range. *)
+Theorem culprit_stmt_site : forall pp is_call ls i,
+  errline_inside pp -> Forall no_nl ls ->
+  parse_real pp is_call ls = PDiag (DSyntax stmt_site i) -> inside_statement (prepass ls) i.
+Proof. exact culprit_stmt_site_lemma. Qed.
+Print Assumptions culprit_stmt_site.
 
 (* Every site that can have a line (26 main-loop sites, 14 block sites, 2 content sites): the diagnostic's index is the
    line of the malformed construct (the opening line for unclosed blocks), unless a block site was raised while a @for
@@ -203,6 +253,7 @@ Print Assumptions diag_classified.
 Theorem culprit_all_line_sites : forall pp is_call ls site i,
   parse_real pp is_call ls = PDiag (DSyntax site i) -> has_line_site site = true ->
   (exists l, nth_error (prepass ls) i = Some l /\ culprit site l = true) \/
+  (site = stmt_site /\ stmt_blamed pp (prepass ls) i) \/
   (bsite site = true /\ raised_in_loop_body (prepass ls) site i) \/
   (csite site = true /\ i = 0 /\ raised_in_block (prepass ls) site).
 Proof. exact culprit_all_line_sites_lemma. Qed.
@@ -211,15 +262,23 @@ Print Assumptions culprit_all_line_sites.
 Theorem culprit_covered_sites : forall pp is_call ls site i,
   parse_real pp is_call ls = PDiag (DSyntax site i) -> covered site = true ->
   (exists l, nth_error (prepass ls) i = Some l /\ culprit site l = true) \/
+  (site = stmt_site /\ stmt_blamed pp (prepass ls) i) \/
   (bsite site = true /\ raised_in_loop_body (prepass ls) site i).
 Proof. exact culprit_covered_sites_lemma. Qed.
 Print Assumptions culprit_covered_sites.
 
 Theorem culprit_main_sites : forall pp is_call ls site i,
   parse_real pp is_call ls = PDiag (DSyntax site i) -> msite site = true ->
-  exists l, nth_error (prepass ls) i = Some l /\ culprit site l = true.
+  (exists l, nth_error (prepass ls) i = Some l /\ culprit site l = true) \/
+  (site = stmt_site /\ stmt_blamed pp (prepass ls) i).
 Proof. exact culprit_main_sites_lemma. Qed.
 Print Assumptions culprit_main_sites.
+
+Theorem culprit_main_line_sites : forall pp is_call ls site i,
+  parse_real pp is_call ls = PDiag (DSyntax site i) -> msite site = true -> site <> stmt_site ->
+  exists l, nth_error (prepass ls) i = Some l /\ culprit site l = true.
+Proof. exact culprit_main_line_sites_lemma. Qed.
+Print Assumptions culprit_main_line_sites.
 
 Theorem culprit_block_sites_outside_loops : forall pp is_call ls site i,
   parse_real pp is_call ls = PDiag (DSyntax site i) -> bsite site = true ->
@@ -299,6 +358,17 @@ Example culprit_demo_nested_block :
     = PDiag (DSyntax "for-missing-colon" 4) /\
   culprit "for-missing-colon" "  @for i in xs" = true.
 Proof. vm_compute. repeat split; reflexivity. Qed.
+
+(* a `~` statement over several lines with `//` comments around: the index is the continuation line Python blames
+   (line 7 of the story, index 6), inside the statement that starts on index 4 and consumes 4 lines; the oracle of the
+   examples satisfies the premise of culprit_stmt_site *)
+Example culprit_demo_multiline_statement :
+  parse_real ex_pp (fun _ => true) L_stmt_multi = PDiag (DSyntax "stmt:python-syntax" 6) /\
+  nth_error (prepass L_stmt_multi) 4 = Some "~ xs = [" /\ stmt_consumed (prepass L_stmt_multi) 4 "~ xs = [" = 4 /\
+  nth_error (prepass L_stmt_multi) 6 = Some "  2 !! 3," /\
+  inside_statement_b (prepass L_stmt_multi) 6 = true /\ inside_statement_b (prepass L_stmt_multi) 8 = false /\
+  errline_inside ex_pp.
+Proof. repeat split; try (vm_compute; reflexivity). exact ex_pp_errline_inside. Qed.
 
 (* a brace error in the TEXT of a choice stands on the choice's line (was: no line, until /repo 53252c0) *)
 Example culprit_demo_choice_text :
